@@ -1604,12 +1604,24 @@ struct TemplateCore {
             }
 
             case QOperation::Remainder: { // %
-                if ((left.Type == ExpressionType::NaturalNumber) && (right.Type != ExpressionType::RealNumber)) {
+                if (left.Type == ExpressionType::NaturalNumber) {
                     // Naturals above 2^63 - 1 are not negative integers; the sign of the divisor does not matter.
-                    const SizeT64 magnitude =
-                        (((right.Type == ExpressionType::IntegerNumber) && (right.Value.Number.Integer < 0))
-                             ? (SizeT64{0} - right.Value.Number.Natural)
-                             : right.Value.Number.Natural);
+                    SizeT64 magnitude;
+
+                    if (right.Type == ExpressionType::RealNumber) {
+                        const double real = ((right.Value.Number.Real < 0) ? -right.Value.Number.Real
+                                                                           : right.Value.Number.Real);
+
+                        if (!(real < 18446744073709551616.0)) {
+                            break; // The divisor is above every natural: left is its own remainder.
+                        }
+
+                        magnitude = SizeT64(real);
+                    } else {
+                        magnitude = (((right.Type == ExpressionType::IntegerNumber) && (right.Value.Number.Integer < 0))
+                                         ? (SizeT64{0} - right.Value.Number.Natural)
+                                         : right.Value.Number.Natural);
+                    }
 
                     if (magnitude == 0) {
                         return false;
@@ -1620,7 +1632,14 @@ struct TemplateCore {
                 }
 
                 if ((right.Type == ExpressionType::NaturalNumber) && (right.Value.Number.Integer < 0) &&
-                    (left.Type == ExpressionType::IntegerNumber)) {
+                    ((left.Type == ExpressionType::IntegerNumber) ||
+                     ((left.Type == ExpressionType::RealNumber) && (left.Value.Number.Real < 9223372036854775808.0) &&
+                      (left.Value.Number.Real >= -9223372036854775808.0)))) {
+                    if (left.Type == ExpressionType::RealNumber) {
+                        left.Value.Number.Integer = SizeT64I(left.Value.Number.Real);
+                        left.Type                 = ExpressionType::IntegerNumber;
+                    }
+
                     // |left| <= 2^63 <= right: left is its own remainder, but for -2^63 % 2^63.
                     if (left.Value.Number.Natural == right.Value.Number.Natural) {
                         left.Value.Number.Integer = 0;
